@@ -533,6 +533,9 @@ theorem parseLine_cases (w : W) (c : Cli) (line : Bytes) :
   generalize hr : parseLine w c line = r
   rw [parseLine] at hr
   extract_lets fin cfg0 c1 c2 c3 try1 m devArg at hr
+  by_cases hlong : (stripWs (line.takeWhile (· != 0))).length ≥ lineMax
+  · rw [if_pos hlong] at hr; subst hr; exact .inl rfl
+  rw [if_neg hlong] at hr
   split at hr
   · subst hr; exact .inl rfl
   rename_i hcmd
@@ -663,6 +666,44 @@ theorem foreach_in_singlet_counterexample :
     (newActs [exP1, exP3] exScriptsForeach 10 [[110, 51]] 5 false 2).map
         (fun a => (a.com, a.outerPlugs, twoSteps (exDevWith [exP1, exP3] exScriptsForeach) a))
       = [(10, some [exP3], [111, 102, 102, 32, 49, 10])] := by decide +kernel
+
+/-! ### `CP_ERR_TOOLONG`: a line of `CP_LINEMAX` bytes or more is answered 203 and goes no further -/
+
+/-- `if (strlen(str) >= CP_LINEMAX)`, the first test of `_parse_input`: reply 203, then the prompt (the branch falls
+    through to the end of the function); no command is created, the world is as it was -/
+theorem parseLine_tooLong_eq (w : W) (c : Cli) (line : Bytes)
+    (h : (stripWs (line.takeWhile (· != 0))).length ≥ lineMax) :
+    parseLine w c line = (w, put c (codeLine 203 ++ crlf ++ (if c.quit then [] else prompt))) := by
+  rw [parseLine]
+  exact if_pos h
+
+theorem takeWhile_all {p : UInt8 → Bool} (l : Bytes) (h : ∀ a ∈ l, p a = true) : l.takeWhile p = l := by
+  induction l with
+  | nil => rfl
+  | cons a r ih => rw [List.takeWhile_cons_of_pos (h a (by simp)), ih (fun x hx => h x (by simp [hx]))]
+
+/-- a request line made of `pre` (no NUL, not starting with white space), then `k + 1` times `x`, then LF: what
+    `_parse_input` looks at is the line without the LF -/
+theorem strip_long (pre : Bytes) (k : Nat) (h0 : ∀ a ∈ pre, (a != 0) = true) (hs : isSpace (pre.headD 120) = false) :
+    stripWs ((pre ++ List.replicate (k + 1) 120 ++ [10]).takeWhile (· != 0)) = pre ++ List.replicate (k + 1) 120 := by
+  rw [takeWhile_all _ (by
+    intro a ha
+    simp only [List.mem_append, List.mem_replicate, List.mem_singleton] at ha
+    rcases ha with (ha | ⟨_, rfl⟩) | rfl
+    · exact h0 a ha
+    · decide
+    · decide)]
+  unfold stripWs
+  have h1 : (pre ++ List.replicate (k + 1) 120 ++ [10]).dropWhile isSpace = pre ++ List.replicate (k + 1) 120 ++ [10] := by
+    cases pre with
+    | nil => rw [List.replicate_succ]; exact List.dropWhile_cons_of_neg (by decide)
+    | cons a r => exact List.dropWhile_cons_of_neg (by rw [show isSpace a = false from hs]; decide)
+  rw [h1, List.reverse_append, List.reverse_append, List.reverse_replicate]
+  have h2 : ([10] : Bytes).reverse ++ (List.replicate (k + 1) 120 ++ pre.reverse) = 10 :: 120 :: (List.replicate k 120 ++ pre.reverse) := by
+    rw [List.replicate_succ]; rfl
+  rw [h2, List.dropWhile_cons_of_pos (by decide), List.dropWhile_cons_of_neg (by decide)]
+  rw [← List.cons_append, ← List.replicate_succ, List.reverse_append, List.reverse_reverse, List.reverse_replicate]
+
 
 end Pm.Daemon.Enq
 
